@@ -92,6 +92,8 @@ RICH = [
     "{{ x | where: 'a', 1 | map: (i, j) => i.b | sort: i => i.c }}",
     "{##} {## a # b ##}{{ x }}{#- c -#} {{- y -}} {%~ if a ~%}{%+ endif +%}",
     "{% assign x = 'a', 'b', c %}{% for i in 1, 2, 3 %}{{ i }}{% endfor %}",
+    "{{ \"Hi ${ name | append: '!' } bye\" }}{{ \"x ${ 'in ${y} ner' } z\" }}",
+    "{{ 'a ${ \"b\" } c ${ x | default: \"d ${ 'e' } f\" } g' }}{% assign s = \"${ 'p' }${ 'q' }\" %}",
     "{{ x }}\n{% if %}",
     "{% for %}",
     "text only",
@@ -427,10 +429,30 @@ def sigma_source(k: int, idx: int, joiner: str) -> str:
     return joiner.join(parts)
 
 
+NEWLINES = ["\n", "\r\n", "\r", "\u2028", "\x0c", "\x85"]
+HEAD_LINES = ["{% assign v = 1 %}", "text {{ v }}", "{# note #}", "{% if v %}", "{% endif %}"]
+LATE_TAILS = [
+    "{{ v | nosuchfilter }}", "{{ v | divided_by: 0 }}", "{{ v w }}", "{{ v !}}", "{{ v | }}", "{% nosuchtag %}", "{% if %}",
+    "{{ 'unclosed }}", "{{ v[ }}", "{% for x in %}", "{% include 'missing' %}", "{{ v | upcase: 1, 2 }}", "{{ v }", "{% endfor %}",
+]
+
+
+def line_sources() -> list[str]:
+    """Multi-line sources under every line convention str.splitlines knows, with the error on the LAST line."""
+    out = []
+    for nl in NEWLINES:
+        for h in range(len(HEAD_LINES) + 1):
+            for tail in LATE_TAILS:
+                out.append(nl.join([*HEAD_LINES[:h], tail]))
+                out.append(nl.join([*HEAD_LINES[:h], tail]) + nl)
+    return out
+
+
 def corpus(tier: str) -> list[str]:
     from mc import grammar
 
     base = list(RICH)
+    base += line_sources()
     base += impl.corpus_templates()
     base += grammar.printed_corpus(tier)
     seen: dict[str, None] = {}
